@@ -183,6 +183,29 @@ async def run_history(loop: vclock.VLoop, hist: dict) -> dict:
                 temp = getattr(dev, "temperature", None) if dev is not None else None
             except Exception as e:  # noqa: BLE001
                 temp = f"raises {type(e).__name__}"
+            # ... and a device the gateway already KNOWS is still tracked: the last device of the history that reported its own
+            # temperature (I|30C9, 3 bytes, from itself) and whose reading the gateway shows reports another one
+            known = None
+            for fr in reversed(frames):
+                p = fr.split()
+                if len(p) >= 8 and p[-8] == "I" and p[-3] == "30C9" and p[-2] == "003" and p[-6] == p[-4] and p[-1][:2] == "00" and p[-1][2:] not in ("7FFF", "31FF", "7EFF"):
+                    known = p[-6]
+                    break
+            kdev = gwy.device_by_id.get(known) if known else None
+            known_obs = None
+            if kdev is not None and hasattr(type(kdev), "temperature"):
+                try:
+                    t_before = kdev.temperature
+                except Exception as e:  # noqa: BLE001
+                    t_before = f"raises {type(e).__name__}"
+                if isinstance(t_before, float):  # it is being tracked now
+                    eth.inject(f" I --- {known} --:------ {known} 30C9 003 000815")
+                    await vclock.quiesce()
+                    try:
+                        t_after = kdev.temperature
+                    except Exception as e:  # noqa: BLE001
+                        t_after = f"raises {type(e).__name__}"
+                    known_obs = {"id": known, "before": t_before, "after": t_after, "same_object": gwy.device_by_id.get(known) is kdev}
             from ramses_tx.command import Command
 
             # traffic can make the gateway queue requests of its own (e.g. RQ|30C9 for zones missing from an array); a full send
@@ -201,7 +224,7 @@ async def run_history(loop: vclock.VLoop, hist: dict) -> dict:
                 if any(" 313F " in f for _, f in port.tx_log[n0:]):
                     break
                 await asyncio.sleep(1.0)
-            obs["probe"] = {"device_created": dev is not None, "temperature": temp, "send": sent,
+            obs["probe"] = {"device_created": dev is not None, "temperature": temp, "send": sent, "known": known_obs,
                             "frames_written": sum(1 for _, f in port.tx_log[n0:] if " 313F " in f)}
         if watched:
             changed = []
